@@ -156,6 +156,27 @@ fn check_cert(ctx: &Ctx, case: &CaseId, key: &rcgen::KeyPair, dn: &Distinguished
 	}
 }
 
+/// The name is edited IN PLACE inside a long-lived `CertificateParams` and written (by reference, as a
+/// CSR) between the edits: anything the name remembers from an earlier encoding must not outlive an edit.
+fn check_inplace(ctx: &Ctx, case: &CaseId, key: &rcgen::KeyPair, params: &CertificateParams, m: &Model, hist: &str) {
+	ctx.count("csr_built_in_place");
+	let csr = match crate::guard(|| params.serialize_request(key)) {
+		Err(pn) => return ctx.violation("c20:cert-panic", case, hist, &pn),
+		Ok(Err(e)) => return ctx.violation("c20:cert-error", case, hist, &format!("{}", e)),
+		Ok(Ok(c)) => c,
+	};
+	match x509::parse_csr(csr.der()) {
+		Err(e) => ctx.violation("c20:cert-undecodable", case, hist, &e),
+		Ok(v) => {
+			let got: Vec<(Vec<u64>, String)> = v.subject.flat().iter().map(|a| (a.oid.clone(), a.text().unwrap_or_else(|e| format!("<{}>", e)))).collect();
+			let want: Vec<(Vec<u64>, String)> = m.iter().map(|(t, v)| (type_oid(t), value_text(v))).collect();
+			if got != want {
+				ctx.violation("c20:inplace-subject-order", case, hist, &format!("subject written after in-place edits {:?} != enumeration {:?}", got, want));
+			}
+		},
+	}
+}
+
 fn type_oid(t: &DnType) -> Vec<u64> {
 	match t {
 		DnType::CountryName => vec![2, 5, 4, 6],
@@ -344,6 +365,9 @@ pub fn run(ctx: &Ctx) {
 			let mut m: Model = Vec::new();
 			let mut ops = Vec::new();
 			let mut prev: Option<(DistinguishedName, Model)> = None;
+			// a second copy of the same history lives inside a CertificateParams and is written now and then
+			let mut live = CertificateParams::default();
+			live.distinguished_name = DistinguishedName::new();
 			for _ in 0..len {
 				let op = if rng.chance(3, 5) {
 					Op::Push(rng.below(ntypes as u64) as usize, rng.below(values.len() as u64) as usize)
@@ -352,6 +376,7 @@ pub fn run(ctx: &Ctx) {
 				};
 				let want = model_apply(&mut m, &types, &values, &op);
 				let got = real_apply(&mut dn, &types, &values, &op);
+				let _ = real_apply(&mut live.distinguished_name, &types, &values, &op);
 				ops.push(op);
 				ctx.count("steps_checked");
 				if got != want {
@@ -360,6 +385,9 @@ pub fn run(ctx: &Ctx) {
 				if let Err((what, d)) = compare(&dn, &m, &types) {
 					ctx.violation(&format!("c20:{}", what), &case, &ops_text(&ops), &d);
 					break;
+				}
+				if !cfg!(miri) && rng.chance(1, 6) {
+					check_inplace(ctx, &case, &key, &live, &m, &format!("{} (written in place after step {})", ops_text(&ops), ops.len()));
 				}
 				if let Some((pdn, pm)) = &prev {
 					if (pdn == &dn) != (pm == &m) {
@@ -441,6 +469,9 @@ pub fn run(ctx: &Ctx) {
 				return ctx.violation(&format!("c20:imported:{}", what), &case, &hist0, &d);
 			}
 			let mut ops2 = Vec::new();
+			let mut live = CertificateParams::default();
+			live.distinguished_name = dn.clone();
+			check_inplace(ctx, &case, &key, &live, &m, &hist0);
 			for _ in 0..1 + rng.below(6) {
 				let op = if rng.chance(3, 4) {
 					Op::Push(rng.below(itypes.len() as u64) as usize, rng.below(values.len() as u64) as usize)
@@ -449,6 +480,7 @@ pub fn run(ctx: &Ctx) {
 				};
 				let want = model_apply(&mut m, &itypes, &values, &op);
 				let got = real_apply(&mut dn, &itypes, &values, &op);
+				let _ = real_apply(&mut live.distinguished_name, &itypes, &values, &op);
 				ops2.push(op);
 				ctx.count("steps_checked");
 				let hist = format!("{}; then {}", hist0, ops_text(&ops2));
@@ -460,6 +492,7 @@ pub fn run(ctx: &Ctx) {
 				}
 				// the certificate after every step: stale state shows only for some step counts
 				check_cert(ctx, &case, &key, &dn, &m, &hist);
+				check_inplace(ctx, &case, &key, &live, &m, &hist);
 			}
 			ctx.distinct(fnv64(format!("{}{}", hist0, ops_text(&ops2)).as_bytes()));
 		});
